@@ -248,6 +248,8 @@ impl SemanticState {
 
             if to_resolve == self.type_registry.unresolved() {
                 // Oh no! We failed to resolve any new types!
+                #[cfg(pyxis_verif)]
+                crate::verif::probe("bail:no_progress");
                 // Bail from the loop.
                 return Err(anyhow::anyhow!(
                     "type resolution will not terminate, failed on types: {:?} (resolved types: {:?})",
